@@ -735,7 +735,11 @@ func main() {
 	seed := flag.Int64("seed", 1, "")
 	reps := flag.Int("reps", 1, "")
 	scale := flag.Int("scale", 1, "")
+	argsOut := flag.String("args", "", "")
 	flag.Parse()
+	if *argsOut != "" {
+		argsGuard(*argsOut, vlib.Rng(*seed, "c11-args"), 3**reps)
+	}
 	o := vlib.Create(*out)
 	defer o.Close()
 	tr := 0
